@@ -109,6 +109,8 @@ def defuse(ins):
         return set(d) | {'fl'}, uses | set(u), False, False
     if mn == 'mulx' and len(ops) == 3:
         return {rkey(ops[0]), rkey(ops[1])} - {None}, uses | {'rdx'} | ({rkey(ops[2])} - {None}), False, False
+    if mn == 'xchg' and len(ops) == 2 and ops[0].strip() == ops[1].strip():
+        return set(), set(), False, False       # `66 90` (xchg ax,ax): alignment padding
     if mn in ('xchg', 'xadd', 'cmpxchg', 'cmpxchg8b', 'cmpxchg16b'):
         ks = {rkey(o) for o in ops} - {None}
         return ks | {'fl'} | ({'rax'} if mn.startswith('cmpxchg') else set()), uses | ks | ({'rax'} if mn.startswith('cmpxchg') else set()), \
